@@ -937,6 +937,58 @@ func (e *Engine) evalCall(env *Env, n *ECall) (TV, error) {
 			return TV{}, err
 		}
 		return TV{Eq(App("i-type", SInt, a), IntLit(0)), types.Typ[types.Bool]}, nil
+	case "has":
+		// has(m, k): key k is present in map m
+		mv, err := e.eval(env, n.Args[0])
+		if err != nil {
+			return TV{}, err
+		}
+		mt, ok := mv.T.Underlying().(*types.Map)
+		if !ok {
+			return TV{}, fmt.Errorf("has(): not a map")
+		}
+		m, err := s.toTerm(mv.V)
+		if err != nil {
+			return TV{}, err
+		}
+		k, err := e.evalTerm(env, n.Args[1])
+		if err != nil {
+			return TV{}, err
+		}
+		dk, _, _ := e.mapHeapKeys(mt)
+		domH := e.heapIn(env, dk, e.heapSorts[dk])
+		return TV{And(Not(Eq(m, IntLit(0))), Select(Select(domH, m), k)), types.Typ[types.Bool]}, nil
+	case "elemHolds":
+		// elemHolds(e, "*T"): list element e is non-nil and its Value is a non-nil *T
+		ev, err := e.eval(env, n.Args[0])
+		if err != nil {
+			return TV{}, err
+		}
+		ep, ok := ev.V.(*Ptr)
+		if !ok || ep.Kind != pkObj {
+			return TV{}, fmt.Errorf("elemHolds(): not a *list.Element")
+		}
+		ts, ok := n.Args[1].(*EStr)
+		if !ok {
+			return TV{}, fmt.Errorf("elemHolds(e, \"T\")")
+		}
+		ty, _, err := e.resolveType(env, ts.Val)
+		if err != nil {
+			return TV{}, err
+		}
+		vp, ok := elementValuePtr(ep)
+		if !ok {
+			return TV{}, fmt.Errorf("elemHolds(): no Value field")
+		}
+		val, err := e.loadIn(env, vp)
+		if err != nil {
+			return TV{}, err
+		}
+		vt, err := s.toTerm(val)
+		if err != nil {
+			return TV{}, err
+		}
+		return TV{And(Not(Eq(ep.Ref, IntLit(0))), Eq(App("i-type", SInt, vt), IntLit(int64(e.tm.TypeID(ty)))), Not(Eq(App("i-val", SInt, vt), IntLit(0)))), types.Typ[types.Bool]}, nil
 	case "held":
 		// held(mu): mutex at pointer expression is held on this path
 		v, err := e.evalAddr(env, n.Args[0])
@@ -965,6 +1017,28 @@ func (e *Engine) evalCall(env *Env, n *ECall) (TV, error) {
 	}
 	if tv, handled, err := e.brSpec(env, n.Fun, n.Args); handled {
 		return tv, err
+	}
+	if tv, handled, err := e.listSpec(env, n.Fun, n.Args); handled {
+		return tv, err
+	}
+	if n.Fun == "as" && len(n.Args) == 2 {
+		// as(x, "*T"): the pointer held by interface value x, read as *T (no check: use together with a type fact)
+		ts, ok := n.Args[1].(*EStr)
+		if !ok {
+			return TV{}, fmt.Errorf("as(x, \"T\"): second argument must be a type string")
+		}
+		ty, _, err := e.resolveType(env, ts.Val)
+		if err != nil {
+			return TV{}, err
+		}
+		x, err := e.evalTerm(env, n.Args[0])
+		if err != nil {
+			return TV{}, err
+		}
+		if x.Sort != SIface {
+			return TV{}, fmt.Errorf("as(): not an interface value")
+		}
+		return TV{s.fromTerm(App("i-val", SInt, x), ty), ty}, nil
 	}
 	// spec functions
 	if sf, ok := e.cs.Specs[n.Fun]; ok {
